@@ -1,3 +1,234 @@
 import B6.Driver.Common
-/-! Driver for C31 — stub (the check for this property is not built yet). -/
-def main : IO Unit := B6.Driver.run { σ := Unit, init := (), step := fun s _ _ => (s, .bad) }
+import B6.Model.FeatureID
+/-!
+Driver for C31.  Stateless: every line is one observation of the real code.
+
+An ID is the word `type:nshex:value` (`nshex` = lowercase hex of the namespace bytes, `-` when empty).
+Byte strings are hex words.
+
+ops
+  `str ID`                 answer `<hex of id.String()> <FeatureIDFromString of it>`
+  `parse HEX`              answer `ID`                               (FeatureIDFromString of any string)
+  `json ID`                answer `<hex of the JSON string value> <ID after json round trip>`
+  `yaml ID`                answer `<hex of the YAML string value> <ID after yaml round trip>`
+  `yamlraw HEX`            answer `ID`                               (UnmarshalYAML given that string)
+  `proto ID`               answer `<enum> <nshex> <value> <ID after wire round trip>`
+  `unparse A ID`           answer `<hex token> <ok|err> <ID>`        (UnparseFeatureID(id, A=1) then ParseFeatureIDToken)
+  `token HEX`              answer `<ok|err> <ID>` | `panic`          (ParseFeatureIDToken of any token)
+  `less ID ID ID`          answer 7 bits `ab ba bc cb ac ca aa`
+  `compact [nshex…] ID ID` answer `<encA> <encB> <keyA> <keyB> <compactLess> <Less>` | `panic`
+  `postcode HEX`           answer `<ID> <hex|none>`                  (PointIDFromGBPostcode, PostcodeFromPointID of it)
+  `pcid ID`                answer `<hex|none>`                       (PostcodeFromPointID)
+  `ons HEX YEAR TYPE`      answer `<ID> <hex code|none> <year|->`    (FeatureIDFromUKONSCode, UKONSCodeFromFeatureID of it)
+  `onsid ID`               answer `<hex code|none> <year|->`
+
+Verdicts: the property predicate (round trip gives the ID back; order laws; compact order = Less) is
+evaluated on the implementation's answer; `diff` when only the model disagrees.
+-/
+open B6.Driver B6.Model.FeatureID
+namespace B6.Driver.C31
+
+def typeName : FType → String
+  | .point => "point" | .path => "path" | .area => "area" | .relation => "relation"
+  | .invalid => "invalid" | .collection => "collection" | .expression => "expression"
+
+def parseType : String → Option FType
+  | "point" => some .point | "path" => some .path | "area" => some .area
+  | "relation" => some .relation | "invalid" => some .invalid
+  | "collection" => some .collection | "expression" => some .expression | _ => none
+
+def parseBytes (s : String) : Option Bytes := (parseHex s).map (·.map UInt8.toNat)
+def renderBytes (b : Bytes) : String := renderHex (b.map UInt8.ofNat)
+
+def parseID (s : String) : Option FeatureID :=
+  match s.splitOn ":" with
+  | [t, ns, v] => do
+    let t ← parseType t
+    let ns ← parseBytes ns
+    let v ← v.toNat?
+    if v < 2 ^ 64 then some ⟨t, ns, v⟩ else none
+  | _ => none
+
+def renderID (f : FeatureID) : String := s!"{typeName f.type}:{renderBytes f.ns}:{f.value}"
+
+def bit (b : Bool) : String := if b then "1" else "0"
+
+/-- model answer vs implementation answer, with the property predicate `holds` evaluated on the
+implementation's answer -/
+def judge (impl model : String) (holds : Bool) (clause : String) : Verdict :=
+  if !holds then .propfail clause
+  else if impl == model then .ok else .diff model
+
+/-- the last word of the implementation's answer parsed as an ID -/
+def lastID (impl : String) : Option FeatureID :=
+  match (words impl).getLast? with
+  | some w => parseID w
+  | none => none
+
+def normalisePostcode (s : Bytes) : Bytes := toUpper (s.filter (· ≠ 32))
+
+def validPostcodeB (p : Bytes) : Bool :=
+  5 ≤ p.length && p.length ≤ 7 && p.all fun c => (48 ≤ c && c ≤ 57) || (65 ≤ c && c ≤ 90)
+
+def validONSCodeB (code : Bytes) (year : Int) : Bool :=
+  match code with
+  | letter :: digits =>
+    letter < 128 && letter ≠ 47 && digits.length == 8 && digits.all isDigit && 1900 ≤ year && year ≤ 2155
+  | [] => false
+
+def optBytes : Option Bytes → String
+  | some b => renderBytes b
+  | none => "none"
+
+def step (_ : Unit) (op impl : String) : Unit × Verdict :=
+  let v : Verdict :=
+    match words op with
+    | ["str", ids] =>
+      match parseID ids with
+      | none => .bad
+      | some f =>
+        let s := idString f
+        let m := s!"{renderBytes s} {renderID (fromString s)}"
+        judge impl m (f.type == .invalid || lastID impl == some f) "string-roundtrip"
+    | ["parse", h] =>
+      match parseBytes h with
+      | none => .bad
+      | some s => judge impl (renderID (fromString s)) true ""
+    | ["json", ids] =>
+      match parseID ids with
+      | none => .bad
+      | some f =>
+        let s := jsonString f
+        let m := s!"{renderBytes s} {renderID (fromJSONString s)}"
+        judge impl m (f.type == .invalid || lastID impl == some f) "json-roundtrip"
+    | ["yaml", ids] =>
+      match parseID ids with
+      | none => .bad
+      | some f =>
+        let s := yamlString f
+        let m := s!"{renderBytes s} {renderID (fromYAMLString s)}"
+        judge impl m (f.type == .invalid || lastID impl == some f) "yaml-roundtrip"
+    | ["yamlraw", h] =>
+      match parseBytes h with
+      | none => .bad
+      | some s => judge impl (renderID (fromYAMLString s)) true ""
+    | ["proto", ids] =>
+      match parseID ids with
+      | none => .bad
+      | some f =>
+        let (e, ns, v) := toProto f
+        let back := match fromProto (e, ns, v) with
+          | some g => renderID g
+          | none => "panic"
+        let m := s!"{e} {renderBytes ns} {v} {back}"
+        judge impl m (lastID impl == some f) "proto-roundtrip"
+    | ["unparse", a, ids] =>
+      match parseID ids with
+      | none => .bad
+      | some f =>
+        if a != "0" && a != "1" then .bad else
+        let tok := unparse f (a == "1")
+        let back := match parseToken tok with
+          | some (g, err) => s!"{if err then "err" else "ok"} {renderID g}"
+          | none => "panic"
+        let m := s!"{renderBytes tok} {back}"
+        let holds := !f.isValid ||
+          (match words impl with
+           | [_, "ok", g] => parseID g == some f
+           | _ => false)
+        judge impl m holds "shell-roundtrip"
+    | ["token", h] =>
+      match parseBytes h with
+      | none => .bad
+      | some tok =>
+        let m := match parseToken tok with
+          | some (g, err) => s!"{if err then "err" else "ok"} {renderID g}"
+          | none => "panic"
+        judge impl m true ""
+    | ["less", a, b, c] =>
+      match parseID a, parseID b, parseID c with
+      | some a, some b, some c =>
+        let m := String.join ([less a b, less b a, less b c, less c b, less a c, less c a, less a a].map bit)
+        let holds :=
+          match impl.toList.map (· == '1') with
+          | [ab, ba, bc, cb, ac, ca, aa] =>
+            !aa &&
+            (if a == b then !ab && !ba else ab != ba) &&
+            (if b == c then !bc && !cb else bc != cb) &&
+            (if a == c then !ac && !ca else ac != ca) &&
+            (!(ab && bc) || ac) && (!(cb && ba) || ca) &&
+            (!(ba && ac) || bc) && (!(ca && ab) || cb) &&
+            (!(ac && cb) || ab) && (!(bc && ca) || ba)
+          | _ => false
+        judge impl m holds "strict-total-order"
+      | _, _, _ => .bad
+    | "compact" :: _ =>
+      -- `compact [ns ns …] a b`
+      match op.splitOn "]" with
+      | [l, r] =>
+        match parseBracket (sdrop l 8 ++ "]"), words r with
+        | some nsw, [a, b] =>
+          match nsw.mapM parseBytes, parseID a, parseID b with
+          | some nss, some a, some b =>
+            let tbl := fillTable nss
+            let m := match encode tbl a.ns, encode tbl b.ns with
+              | some ea, some eb =>
+                let ka := (combine a.type ea, a.value)
+                let kb := (combine b.type eb, b.value)
+                s!"{ea} {eb} {ka.1} {kb.1} {bit (keyLess ka kb)} {bit (less a b)}"
+              | _, _ => "panic"
+            let holds :=
+              match words impl with
+              | [_, _, _, _, cl, l] => tbl.length > 8192 || cl == l
+              | ["panic"] => true
+              | _ => false
+            judge impl m holds "compact-order-agrees"
+          | _, _, _ => .bad
+        | _, _ => .bad
+      | _ => .bad
+    | ["postcode", h] =>
+      match parseBytes h with
+      | none => .bad
+      | some s =>
+        let id := pointIDFromGBPostcode s
+        let m := s!"{renderID id} {optBytes (postcodeFromPointID id)}"
+        let p := normalisePostcode s
+        let holds := !validPostcodeB p ||
+          (match words impl with
+           | [_, back] => back == renderBytes p
+           | _ => false)
+        judge impl m holds "postcode-roundtrip"
+    | ["pcid", ids] =>
+      match parseID ids with
+      | none => .bad
+      | some f => judge impl (optBytes (postcodeFromPointID f)) true ""
+    | ["ons", h, y, t] =>
+      match parseBytes h, y.toInt?, parseType t with
+      | some code, some year, some t =>
+        let id := featureIDFromUKONSCode code year t
+        let back := match ukONSCodeFromFeatureID id with
+          | some (c, yr) => s!"{renderBytes c} {yr}"
+          | none => "none -"
+        let m := s!"{renderID id} {back}"
+        let holds := !validONSCodeB code year ||
+          (match words impl with
+           | [_, c, yr] => c == renderBytes code && yr.toInt? == some year
+           | _ => false)
+        judge impl m holds "ons-roundtrip"
+      | _, _, _ => .bad
+    | ["onsid", ids] =>
+      match parseID ids with
+      | none => .bad
+      | some f =>
+        let m := match ukONSCodeFromFeatureID f with
+          | some (c, yr) => s!"{renderBytes c} {yr}"
+          | none => "none -"
+        judge impl m true ""
+    | _ => .bad
+  ((), v)
+
+def family : Family := { σ := Unit, init := (), step := step }
+
+end B6.Driver.C31
+
+def main : IO Unit := B6.Driver.run B6.Driver.C31.family
